@@ -129,7 +129,7 @@ def fair_share():
             Ghost('re:^for user in allocating_users_by_total_cores', 'ghost_assume(PSR == SUMR, "SUMR is updated by +r_u / -r_u with every add / remove of the allocating set, so it is the sum of r_u over that set, and PSR is that sum taken along the enumeration the final loop iterates")', where='after'),
         ],
         ghost_init={'FREE0': 'free_cores_mcpu', 'SUMR': '0', 'TOTAL': '0', 'ROUNDED': 'False', 'TOTAL_BEFORE': '0', 'PSR': '0'},
-        loops={'re:^for record in records': loop0, 're:^while free_cores_mcpu > 0': loop1, 're:^for user in allocating_users_by_total_cores': loop2},
+        loops={0: loop0, 1: loop1, 2: loop2},  # by loop ordinal: the loading loop, the water-filling loop, the final hand-out loop
         ensures=[
             ('never-negative-never-more-than-the-demand', 'forall("U", lambda u: implies(ISUSER(u), 0 <= %s and %s <= READY(u)))' % (al('u'), al('u'))),
             ('a-user-left-short-sits-at-the-common-level-or-is-above-it-with-nothing', 'forall("U", lambda u: implies(ISUSER(u) and %s < READY(u), RUN(u) + %s == mark or (%s == 0 and RUN(u) >= mark)))' % (al('u'), al('u'), al('u'))),
@@ -141,6 +141,11 @@ def fair_share():
         ],
         raises={}, canaries=[('everyone-always-satisfied', 'forall("U", lambda u: implies(ISUSER(u), %s == READY(u)))' % al('u')), ('nobody-ever-gets-anything', 'TOTAL == 0')],
     )
+
+
+def native_witness(ctx):
+    script = open(os.path.join(os.path.dirname(__file__), 'native', 'c11_replay.py')).read()
+    return core.run_native(script, {'size': 'small'}, timeout=600)
 
 
 def build(ctx):
